@@ -9,6 +9,7 @@ import inspect
 import json
 
 import fiddle as fdl
+from fiddle import daglish
 from fiddle._src.experimental import serialization as ser
 
 from fvlib import fam, sigs, jsonstub, rue_codec
@@ -68,6 +69,33 @@ class DictObj:
 
 
 ser.register_dict_based_object(DictObj)
+
+
+class Bag:
+  """User type whose flatten hands out a fresh tuple on every call (serialization.register_node_traverser)."""
+
+  def __init__(self, items):
+    self._items = list(items)
+
+  def __eq__(self, other):
+    return type(other) is Bag and self._items == other._items
+
+  __hash__ = None
+
+
+ser.register_node_traverser(
+    Bag, flatten_fn=lambda b: ((tuple(b._items),), None), unflatten_fn=lambda vals, _: Bag(vals[0]),
+    path_elements_fn=lambda b: (daglish.Attr('items'),))
+
+
+class Widget:
+  def __init__(self, v=None):
+    self.v = v
+
+
+def widget(v=None):
+  """Same name as the class up to CamelCase / snake_case."""
+  return ('widget', v)
 CONST = object()
 MY_CONSTANT = CONST
 ser.register_constant(__name__, 'MY_CONSTANT', compare_by_identity=True)
@@ -164,9 +192,14 @@ def _member(li, ck, kind, share, tagged):
   elif kind == 3:
     # two dicts whose key tuples are equal and hash alike but differ in key type / sign
     root = fdl.Config(fam.g1, x={v: [1], 'k': 2}, y={_twin(v): [1], 'k': 2}, z=[{1: 'a', 0: 'b'}, {True: 'a', False: 'b'}, inner])
-  else:
+  elif kind == 4:
     # callables: a classmethod inherited through a subclass, a classmethod of the defining class, a nested class
     root = fdl.Config(Sub.make, v=fdl.Config(Base.make, v=placed))
+  else:
+    # many objects of a user-registered type whose flatten creates temporaries; two callables whose names differ
+    # only by CamelCase / snake_case
+    # (a plain list as the root: the traversal then creates the temporaries back to back)
+    root = [Bag([i, i + 1000]) for i in range(40)] + [fdl.Config(Widget, v=placed), fdl.Config(widget, v=1)]
   return root
 
 
@@ -187,7 +220,7 @@ def c09_text(li: int, ck: int, kind: int, share: bool, tagged: bool) -> bool:
   """
   dump_json raises, or the text is valid JSON from which load_json rebuilds a canonically equal value (types, leaves,
   callables, tags, sharing, unset stays unset) without invoking anything, and a second dump gives the same document.
-  require: 0 <= li < 54 and 0 <= ck <= 11 and 0 <= kind <= 4
+  require: 0 <= li < 54 and 0 <= ck <= 11 and 0 <= kind <= 5
   """
   import crosshair
   li, ck, kind = crosshair.realize(li), crosshair.realize(ck), crosshair.realize(kind)
@@ -473,7 +506,7 @@ def obligations(tier, seed):
   bytes_note = f'codec(s) used by the bytes traverser today: {sorted(names) if names else "?"}; stub validated on {n} strings'
   if names and 'raw_unicode_escape' in names:
     rue_codec.install_into_crosshair()
-  tcubes = [Cube(f'l{li}_k{kind}', [], dict(li=li, kind=kind), est=44) for li in range(NLEAF) for kind in range(5)
+  tcubes = [Cube(f'l{li}_k{kind}', [], dict(li=li, kind=kind), est=44) for li in range(NLEAF) for kind in range(6)
             if tier != 'quick' or (li + kind) % 3 == 0 or li in (22, 23, 24, 25, 26, 46, 47, 48, 49, 50, 51, 52, 53)]
   scubes = [Cube(f's{s}_{int(sh)}', [], dict(shape=s, share=sh), est=30) for s in range(4) for sh in (False, True)]
   pcubes = [Cube(f'w{w}_t{t}', [], dict(which=w, target=t, falsy=bool((w + t) % 2) if tier == 'quick' else None), est=200)
@@ -485,7 +518,7 @@ def obligations(tier, seed):
   obs = [
       Obligation('c09_text', c09_text, tcubes, timeout=t, path_timeout=60, enumerated=True,
                  smoke=dict(li=2, ck=3, kind=0, share=True, tagged=True),
-                 extra_smokes=[dict(li=li, ck=li % 12, kind=li % 5, share=bool(li % 2), tagged=bool(li % 3)) for li in range(NLEAF)]),
+                 extra_smokes=[dict(li=li, ck=li % 12, kind=li % 6, share=bool(li % 2), tagged=bool(li % 3)) for li in range(NLEAF)]),
       Obligation('c09_sym', c09_sym, scubes, timeout=t, path_timeout=60,
                  smoke=dict(shape=0, share=True, tagged=True, i=5, s='ab', b=True),
                  extra_smokes=[dict(shape=s, share=False, tagged=False, i=-3, s='', b=False) for s in range(4)]),
